@@ -5,7 +5,8 @@
 ID="$1"; shift; CHECKS="$@"
 OUT=/verif/seeded/$ID
 [ -z "$(git -C /repo status --short)" ] || { echo "/repo not clean"; exit 2; }
-git -C /repo apply $OUT/patch.diff || { echo "cannot apply to /repo"; exit 2; }
+P=$OUT/patch.diff; [ -f $OUT/patch.rebased.diff ] && P=$OUT/patch.rebased.diff  # same change re-made on the current tree after a later fix touched the same lines
+git -C /repo apply $P || { echo "cannot apply to /repo"; exit 2; }
 trap 'git -C /repo checkout -- .' EXIT
 echo "# checks run with the patch applied to /repo $(git -C /repo rev-parse --short HEAD), machinery $(git -C /verif rev-parse --short HEAD)" > $OUT/checks.txt
 for c in $CHECKS; do
